@@ -104,11 +104,18 @@ pub struct CreatedCont {
 
 /// Create the container in `dir` (file name `name`, e.g. "c.jbk").
 pub fn create_container(case: &ContCase, dir: &Path, name: &str, progress: Arc<dyn jbk::creator::Progress>) -> Result<CreatedCont, String> {
+    create_container_ex(case, dir, name, dir, progress)
+}
+
+/// Same, the extra content packs being written in `extras_dir` (possibly another directory than the container's).
+pub fn create_container_ex(case: &ContCase, dir: &Path, name: &str, extras_dir: &Path, progress: Arc<dyn jbk::creator::Progress>) -> Result<CreatedCont, String> {
+    std::fs::create_dir_all(extras_dir).map_err(|e| e.to_string())?;
     let inputs = dir.join("inputs");
     std::fs::create_dir_all(&inputs).map_err(|e| e.to_string())?;
     let path = dir.join(name);
     let upath = camino::Utf8PathBuf::from_path_buf(path.clone()).map_err(|_| "utf8")?;
-    let before: std::collections::BTreeSet<PathBuf> = list_files(dir);
+    let mut before: std::collections::BTreeSet<PathBuf> = list_files(dir);
+    before.extend(list_files(extras_dir));
     let creator = BasicCreator::new(&upath, case.pkg.mode(), vendor(), case.content.comp.to_jbk(), progress).map_err(|e| format!("new: {e}"))?;
     let (addrs, creator) = if case.content.cached {
         let mut adder = CachedContentAdder::new(creator, Rc::new(()));
@@ -123,7 +130,7 @@ pub fn create_container(case: &ContCase, dir: &Path, name: &str, progress: Arc<d
     let mut extras: Vec<ContentPackCreator<dyn jbk::creator::PackRecipient>> = vec![];
     let mut extra_addrs = vec![];
     for (i, ec) in case.extra.iter().enumerate() {
-        let epath = camino::Utf8PathBuf::from_path_buf(dir.join(format!("extra{}.jbkc", i + 2))).map_err(|_| "utf8")?;
+        let epath = camino::Utf8PathBuf::from_path_buf(extras_dir.join(format!("extra{}.jbkc", i + 2))).map_err(|_| "utf8")?;
         let out: Box<dyn jbk::creator::PackRecipient> = jbk::creator::AtomicOutFile::new(&epath).map_err(|e| format!("extra out: {e}"))?;
         let mut c = ContentPackCreator::new_from_output(out, jbk::PackId::from(i as u16 + 2), vendor(), Default::default(), ec.comp.to_jbk()).map_err(|e| format!("extra new: {e}"))?;
         let a = add_all(&mut c, ec, &inputs).map_err(|e| format!("extra add: {e}"))?;
@@ -134,7 +141,9 @@ pub fn create_container(case: &ContCase, dir: &Path, name: &str, progress: Arc<d
     let installer = DirInstaller { case: case.dir.clone(), built: Some(build(&case.dir)), out: slot.clone() };
     creator.finalize(Box::new(installer), extras).map_err(|e| format!("finalize: {e}"))?;
     let inst = slot.lock().unwrap().take().ok_or("entry store installer was not called")?;
-    let mut files: Vec<PathBuf> = list_files(dir).difference(&before).cloned().collect();
+    let mut after = list_files(dir);
+    after.extend(list_files(extras_dir));
+    let mut files: Vec<PathBuf> = after.difference(&before).cloned().collect();
     files.retain(|p| p.is_file());
     files.sort_by_key(|p| (*p != path, p.clone()));
     Ok(CreatedCont { path, addrs, extra_addrs, inst, files })
